@@ -137,6 +137,38 @@ def parents(root: ast.AST) -> T.Dict[ast.AST, ast.AST]:
     return pm
 
 
+def bind_args(call: ast.Call, fn: T.Union[FuncNode, None], names: T.Optional[T.List[str]] = None) -> T.Dict[str, ast.AST]:
+    """Arguments of a call bound to the callee's parameter names (positional index or keyword), `self`/`cls` skipped.
+    `names` gives the parameter names when the callee is not a repository function."""
+    ps = params(fn) if fn is not None else list(names or [])
+    if fn is not None:
+        ps += [a.arg for a in fn.args.kwonlyargs]
+    out: T.Dict[str, ast.AST] = {}
+    for i, a in enumerate(call.args):
+        if isinstance(a, ast.Starred):
+            raise Undecided(f'call with *args cannot be bound: {short(call)}')
+        if i < len(ps):
+            out[ps[i]] = a
+        else:
+            out[f'#{i}'] = a
+    for k in call.keywords:
+        if k.arg is None:
+            raise Undecided(f'call with **kwargs cannot be bound: {short(call)}')
+        out[k.arg] = k.value
+    return out
+
+
+def judge(ctx: T.Any, ok: bool, what: str, positive: bool, mod: T.Any, func: str, construct: T.Any, msg: str, node: T.Optional[ast.AST] = None) -> bool:
+    """ok -> discharged; violated only on positive evidence (a visible construct doing the wrong thing); otherwise undecided."""
+    if ok:
+        ctx.ok(what)
+        return True
+    if positive:
+        ctx.violation(mod, func, construct, msg, node)
+        return False
+    raise Undecided(f'{func}: cannot establish: {what}')
+
+
 def method_calls(node: ast.AST, method: str, nested: bool = True) -> T.List[ast.Call]:
     it = ast.walk(node) if nested else walk_no_nested(node)
     out = [c for c in it if isinstance(c, ast.Call) and call_method(c) == method]
